@@ -97,6 +97,8 @@ pub trait Subject: Clone + Eq + std::fmt::Debug {
     }
     fn start(s: &Start) -> (Self, Option<M>);
     fn fresh(m: &M) -> Self;
+    /// arcs() and vertices() of the final digraph under every way of consuming them
+    fn listing_protocol(&self, name: &str, arcs: &[(usize, usize)], vertices: &[usize]) -> Verdict;
 }
 
 fn start_model(order: usize, arcs: &[(usize, usize)]) -> M {
@@ -118,6 +120,10 @@ macro_rules! unweighted_subject {
                     weighted: arcs.iter().map(|&(u, v)| (u, v, 1)).collect(),
                     arcs,
                 }
+            }
+            fn listing_protocol(&self, name: &str, arcs: &[(usize, usize)], vertices: &[usize]) -> Verdict {
+                crate::props::c02::protocol(&format!("{name}: arcs() after the history"), || self.arcs(), arcs)?;
+                crate::props::c02::protocol(&format!("{name}: vertices() after the history"), || self.vertices(), vertices)
             }
             fn has(&self, u: usize, v: usize) -> bool {
                 self.has_arc(u, v)
@@ -416,6 +422,10 @@ macro_rules! weighted_subject {
                     weighted: self.arcs_weighted().map(|(u, v, w)| (u, v, w.wide())).collect(),
                 }
             }
+            fn listing_protocol(&self, name: &str, arcs: &[(usize, usize)], vertices: &[usize]) -> Verdict {
+                crate::props::c02::protocol(&format!("{name}: arcs() after the history"), || self.arcs(), arcs)?;
+                crate::props::c02::protocol(&format!("{name}: vertices() after the history"), || self.vertices(), vertices)
+            }
             fn has(&self, u: usize, v: usize) -> bool {
                 self.has_arc(u, v)
             }
@@ -681,6 +691,11 @@ pub fn run_history<S: Subject>(c: &Case, name: &str) -> Result<Stats, String> {
         compare(&g, &m, small || i % 8 == 7, &what)?;
     }
     compare(&g, &m, true, &format!("{name} at the end of the history"))?;
+    if m.order() <= 40 && m.a.len() <= 200 {
+        let arcs: Vec<(usize, usize)> = m.a.keys().copied().collect();
+        let vs: Vec<usize> = m.v.iter().copied().collect();
+        g.listing_protocol(name, &arcs, &vs)?;
+    }
     let fresh = guarded(|| S::fresh(&m)).map_err(|p| format!("{name}: building the final digraph afresh panicked: {p}"))?;
     compare(&fresh, &m, false, &format!("{name} built afresh from the final arc set"))?;
     ensure!(
@@ -810,7 +825,7 @@ impl Prop for C01 {
     type Case = Case;
     const ID: &'static str = "C01";
     const NUM: u64 = 1;
-    const RULE: &'static str = "stateful / model-based: representation in {AdjacencyList, AdjacencyMap, AdjacencyMatrix, EdgeList, AdjacencyListWeighted<usize>, AdjacencyListWeighted<isize>}; start digraph from empty+adds, a conversion, From<rows|arcs>, a deterministic generator, a seeded random generator (AdjacencyMap) a filter_vertices result whose vertex set is a run not starting at 0 / every other vertex, or the result of complement / converse / union (order 1..24 quick / 1..70 thorough, orders 8, 9, 11, 16 over-represented for the bit matrix); then 0..40 (thorough 0..120) operations add_arc / add_arc_weighted / remove_arc / AdjacencyMatrix::toggle with vertex arguments in range (~70%), equal, = order, = order+1, far (1000, usize::MAX) and arbitrary weights; after every step order, vertices, arcs, weights, size, has_arc / arc_weight over all pairs of V + two ids outside V are compared with a BTreeSet model. About one random case in 25 has a large order (17..140, weighted towards 63..66, 96, 127..130, 140; at most 700 arcs). A low-rate 'huge' leg adds digraphs of 200..3100 vertices with O(n) arcs (paths, circuits, stars, wheels, trees, one row of exactly 255/256/257 out-neighbours, arcs in the last rows, complete below 300). Non-trivial = the history removes (or toggles off) a present arc after an add and contains a rejected call that is not the last step; distinct = distinct serialised case.";
+    const RULE: &'static str = "stateful / model-based: representation in {AdjacencyList, AdjacencyMap, AdjacencyMatrix, EdgeList, AdjacencyListWeighted<usize>, AdjacencyListWeighted<isize>}; start digraph from empty+adds, a conversion, From<rows|arcs>, a deterministic generator, a seeded random generator (AdjacencyMap) a filter_vertices result whose vertex set is a run not starting at 0 / every other vertex, or the result of complement / converse / union (order 1..24 quick / 1..70 thorough, orders 8, 9, 11, 16 over-represented for the bit matrix); then 0..40 (thorough 0..120) operations add_arc / add_arc_weighted / remove_arc / AdjacencyMatrix::toggle with vertex arguments in range (~70%), equal, = order, = order+1, far (1000, usize::MAX) and arbitrary weights; after every step order, vertices, arcs, weights, size, has_arc / arc_weight over all pairs of V + two ids outside V are compared with a BTreeSet model. About one random case in 25 has a large order (17..140, weighted towards 63..66, 96, 127..130, 140; at most 700 arcs). A low-rate 'huge' leg adds digraphs of 200..3100 vertices with O(n) arcs (paths, circuits, stars, wheels, trees, one row of exactly 255/256/257 out-neighbours, arcs in the last rows, complete below 300). At the end of a history arcs() and vertices() are driven through the consumption protocol of C02. Non-trivial = the history removes (or toggles off) a present arc after an add and contains a rejected call that is not the last step; distinct = distinct serialised case.";
     const ASSUMPTIONS: &'static [&'static str] = &[
         "panic messages are not compared",
         "for AdjacencyMap nothing is asserted about how large an id may be (ids up to 2^20 are used)",
